@@ -162,7 +162,10 @@ def tlc_must_succeed(r, what):
     trace adjudication where verdicts travel through payloads)."""
     if r.rc != 0 or r.error:
         tail = "\n".join(r.stdout.splitlines()[-40:])
-        raise ToolError("TLC failed on %s (rc=%s, error=%s)\n%s" % (what, r.rc, r.error, tail))
+        full = os.path.join(BUILD, "tlc-failure-%s.log" % re.sub(r"[^A-Za-z0-9_]+", "_", what))
+        with open(full, "w") as f:
+            f.write(r.stdout)
+        raise ToolError("TLC failed on %s (rc=%s, error=%s; full output in %s)\n%s" % (what, r.rc, r.error, full, tail))
 
 
 def sany(path):
